@@ -9,23 +9,12 @@ package main
 
 import (
 	"fmt"
-	"os"
 	"sort"
 	"strings"
 
 	"github.com/makiuchi-d/gozxing"
 	"github.com/makiuchi-d/gozxing/oned"
 )
-
-func init() {
-	prev := suites["C06"]
-	suites["C06"] = func(c *Ctx) {
-		if prev != nil && os.Getenv("ROWSREST_ONLY") == "" { // ROWSREST_ONLY: development aid, runs this package's suites alone
-			prev(c)
-		}
-		rowsrestUPC(c)
-	}
-}
 
 // ---------- canonical output of a row read ----------
 
@@ -80,6 +69,7 @@ type rowsrestHints struct {
 	ua    bool // POSSIBLE_FORMATS given to DecodeRow contains UPC_A
 	uaFs  []gozxing.BarcodeFormat
 	wrong bool // ALLOWED_EAN_EXTENSIONS of another type: ignored by the code
+	nilcb bool // NEED_RESULT_POINT_CALLBACK holds a nil ResultPointCallback (a well-typed value): nothing to call
 }
 
 func (h rowsrestHints) goHints(trace *[]string) map[gozxing.DecodeHintType]interface{} {
@@ -88,6 +78,9 @@ func (h rowsrestHints) goHints(trace *[]string) map[gozxing.DecodeHintType]inter
 		m[gozxing.DecodeHintType_NEED_RESULT_POINT_CALLBACK] = gozxing.ResultPointCallback(func(p gozxing.ResultPoint) {
 			*trace = append(*trace, rowsrestPt(p))
 		})
+	}
+	if h.nilcb && !h.cb {
+		m[gozxing.DecodeHintType_NEED_RESULT_POINT_CALLBACK] = gozxing.ResultPointCallback(nil)
 	}
 	if h.ext != "-" {
 		m[gozxing.DecodeHintType_ALLOWED_EAN_EXTENSIONS] = h.extV
@@ -106,6 +99,7 @@ func (h rowsrestHints) goHints(trace *[]string) map[gozxing.DecodeHintType]inter
 func rowsrestGenHints(r *Rng) rowsrestHints {
 	h := rowsrestHints{ext: "-"}
 	h.cb = r.Chance(0.35)
+	h.nilcb = !h.cb && r.Chance(0.1)
 	if r.Chance(0.45) {
 		l := [][]int{{}, {0}, {2}, {5}, {2, 5}, {1, 3}, {-1, 5}, {0, 2}, {5, 5}}[r.Intn(9)]
 		h.extV = l
